@@ -14,6 +14,7 @@ EXPLANATION = (
     "skip, both absolute-value rows for non-ignored edges and err = 0 for ignored ones, all variables with lower bound 0 (non-negativity), "
     "objective sum scale*err + sparsity_lambda * source outflow, and the epsilon row of the second model uses the same expression as the "
     "first objective; (R2) same graph: the corrected graph is a deep copy of a deep copy of the input that only receives item assignments "
+    "(R6) additional starts / ends are wired to the synthetic source / sink exactly by the documented rule (C10.R4), which is what exempts them from conservation.  "
     "of flow_attr; (R3) cache typestate: no cached solution survives the lowering of the solved flag / re-creation of the solver; (R4) the constructor never writes to the caller's ignore list or its shared default.  NOT "
     "decided: optimality; the (1+eps) guarantee as a numeric statement."
 )
